@@ -3,7 +3,8 @@
 (* remaining spelling alternatives.  The harness loads the document with the short spelling and the document with   *)
 (* the long spelling: the typed projects must be equal; an invalid short form must be rejected.                    *)
 EXTENDS Canonical
-CONSTANTS Wide    \* BOOLEAN: the wider port/volume alphabets
+CONSTANTS Wide,    \* BOOLEAN: the wider port/volume alphabets
+          BigLists \* BOOLEAN: the larger pool of port specifications for the port lists
 
 IPs == IF Wide THEN {"", "127.0.0.1", "0.0.0.0", "[::1]", "[fe80::1]"} ELSE {"", "127.0.0.1", "[::1]"}
 Protos == IF Wide THEN {"", "tcp", "udp", "sctp", "TCP", "icmp"} ELSE {"", "udp", "TCP", "icmp"}
@@ -26,13 +27,17 @@ Table == <<
   [n |-> "build", top |-> FALSE, p |-> <<"build">>, short |-> S("./ctx"), long |-> M1("context", S("./ctx"))],
   [n |-> "env_file string", top |-> FALSE, p |-> <<"env_file">>, short |-> S("./a.env"), long |-> Sq1(M2("path", S("./a.env"), "required", B(TRUE)))],
   [n |-> "env_file list", top |-> FALSE, p |-> <<"env_file">>, short |-> Sq2(S("./a.env"), S("./b.env")),
-     long |-> Sq2(M2("path", S("./a.env"), "required", B(TRUE)), M2("path", S("./b.env"), "required", B(TRUE)))],
+     long |-> Sq2(M2("path", S("./a.env"), "required", B(TRUE)), M2("path", S("./b.env"), "required", B(TRUE))),
+     over |-> Sq1(M2("path", S("./a.env"), "required", B(FALSE)))],
   [n |-> "label_file string", top |-> FALSE, p |-> <<"label_file">>, short |-> S("./a.label"), long |-> Sq1(S("./a.label"))],
-  [n |-> "depends_on list", top |-> FALSE, p |-> <<"depends_on">>, short |-> Sq2(S("db"), S("cache")), long |-> M2("db", Dep("service_started"), "cache", Dep("service_started"))],
-  [n |-> "networks list", top |-> FALSE, p |-> <<"networks">>, short |-> Sq2(S("n1"), S("n2")), long |-> M2("n1", Null, "n2", Null)],
+  [n |-> "depends_on list", top |-> FALSE, p |-> <<"depends_on">>, short |-> Sq2(S("db"), S("cache")), long |-> M2("db", Dep("service_started"), "cache", Dep("service_started")),
+     over |-> M1("db", M2("condition", S("service_healthy"), "restart", B(TRUE)))],
+  [n |-> "networks list", top |-> FALSE, p |-> <<"networks">>, short |-> Sq2(S("n1"), S("n2")), long |-> M2("n1", Null, "n2", Null),
+     over |-> M1("n1", M1("aliases", Sq1(S("alias1"))))],
   [n |-> "extends string", top |-> FALSE, p |-> <<"extends">>, short |-> S("db"), long |-> M1("service", S("db"))],
   [n |-> "healthcheck test string", top |-> FALSE, p |-> <<"healthcheck", "test">>, short |-> S("curl -f http://localhost"), long |-> Sq2(S("CMD-SHELL"), S("curl -f http://localhost"))],
-  [n |-> "secrets short", top |-> FALSE, p |-> <<"secrets">>, short |-> Sq2(S("s1"), S("s2")), long |-> Sq2(M1("source", S("s1")), M1("source", S("s2")))],
+  [n |-> "secrets short", top |-> FALSE, p |-> <<"secrets">>, short |-> Sq2(S("s1"), S("s2")), long |-> Sq2(M1("source", S("s1")), M1("source", S("s2"))),
+     over |-> Sq1(M2("source", S("s1"), "mode", I(256)))],
   [n |-> "configs short", top |-> FALSE, p |-> <<"configs">>, short |-> Sq1(S("c1")), long |-> Sq1(M1("source", S("c1")))],
   [n |-> "dns string", top |-> FALSE, p |-> <<"dns">>, short |-> S("1.1.1.1"), long |-> Sq1(S("1.1.1.1"))],
   [n |-> "dns_search string", top |-> FALSE, p |-> <<"dns_search">>, short |-> S("example.com"), long |-> Sq1(S("example.com"))],
@@ -60,7 +65,18 @@ Table == <<
 DevCases == {<<"/dev/a">>, <<"/dev/a", "/dev/b">>, <<"/dev/a", "/dev/b", "rw">>, <<"/dev/a", "/dev/b", "r">>, <<"/dev/a", "/dev/b", "rw", "extra">>,
              <<"/dev/a", "/dev/b", "rwm", "/dev/c">>}
 VARIABLE cs
-Init == \E k \in {"ports", "volumes", "table", "devices"} : cs = [seed |-> k]
+\* lists of port specifications whose expansions overlap: the list is the union, one entry per (host ip, published, target, protocol)
+PP(host, ctr, proto) == [ip |-> "", host |-> host, ctr |-> ctr, proto |-> proto]
+PortPool == {PP(<<>>, <<3000, 3002>>, ""), PP(<<>>, <<3001, 3001>>, ""), PP(<<>>, <<4000, 4002>>, ""), PP(<<>>, <<4001, 4001>>, ""),
+             PP(<<8000, 8001>>, <<80, 81>>, "")} \cup (IF BigLists THEN {PP(<<8001, 8001>>, <<81, 81>>, ""), PP(<<>>, <<3002, 3002>>, "udp")} ELSE {})
+PortLists == UNION {[1..k -> PortPool] : k \in {2, 4}}
+RECURSIVE Flatten(_)
+Flatten(ss) == IF ss = <<>> THEN <<>> ELSE Head(ss) \o Flatten(Tail(ss))
+RECURSIVE DedupFirst(_)
+DedupFirst(seq) == IF seq = <<>> THEN <<>>
+                   ELSE LET rest == DedupFirst(SubSeq(seq, 1, Len(seq) - 1))  last == seq[Len(seq)] IN
+                        IF \E i \in 1..Len(rest) : rest[i] = last THEN rest ELSE Append(rest, last)
+Init == \E k \in {"ports", "volumes", "table", "devices", "portlists"} : cs = [seed |-> k]
 IsSeed == "seed" \in DOMAIN cs
 Next == /\ IsSeed
         /\ \/ cs.seed = "ports" /\ \E p \in PortCases :
@@ -74,11 +90,17 @@ Next == /\ IsSeed
                        path |-> <<"services", "a", "devices">>, n |-> "devices"]
            \/ cs.seed = "table" /\ \E i \in 1..Len(Table) :
                 cs' = [family |-> "table", short |-> Table[i].short, valid |-> TRUE, long |-> Table[i].long,
-                       path |-> (IF Table[i].top THEN <<>> ELSE <<"services", "a">>) \o Table[i].p, n |-> Table[i].n]
+                       path |-> (IF Table[i].top THEN <<>> ELSE <<"services", "a">>) \o Table[i].p, n |-> Table[i].n,
+                       \* a later file that refines one element in long syntax: the two spellings must still agree
+                       over |-> (IF "over" \in DOMAIN Table[i] THEN Table[i].over ELSE Null)]
+           \/ cs.seed = "portlists" /\ \E ps \in PortLists :
+                cs' = [family |-> "ports", short |-> L([i \in 1..Len(ps) |-> S(PortShort(ps[i]))]), valid |-> TRUE,
+                       long |-> L(DedupFirst(Flatten([i \in 1..Len(ps) |-> PortLong(ps[i]).v]))),
+                       path |-> <<"services", "a", "ports">>, n |-> "port list"]
 Spec == Init /\ [][Next]_cs
 
 \* laws on the specification: a port range expands to one entry per container port, paired one to one with the host range
-PortLaws == IsSeed \/ cs.family # "ports" \/ ~cs.valid \/
+PortLaws == IsSeed \/ cs.family # "ports" \/ cs.n # "ports" \/ ~cs.valid \/
    (\A i, j \in 1..Len(cs.long.v) : i # j => Get(cs.long.v[i], "target") # Get(cs.long.v[j], "target"))
 \* KEY=VALUE rows: both spellings denote the same key/value function (the function Merge.tla merges by)
 KVLaws == IsSeed \/ cs.family # "table" \/ cs.n \notin {"environment list", "sysctls list", "annotations list"} \/ ToKV(cs.short) = ToKV(cs.long)
